@@ -123,7 +123,7 @@ EvCbOther ==
   /\ UNCHANGED vars
 
 EvBegin ==   \* begin events carry no state change
-  /\ l <= Len(Trace) /\ Rec.e \in {"existsB", "fetchB", "pushB"}
+  /\ l <= Len(Trace) /\ Rec.e \in {"existsB", "fetchB", "pushB", "fetchC"}
   /\ UNCHANGED vars
 
 \* the caller's cancellation lands after the last storage operation returned
